@@ -30,6 +30,9 @@ EXPLANATION = (
   ' (FIN-position) for every position, position alignment, size and writing direction of a grid the region stays inside the root container along the positioned axis (origin >= 0, origin + extent <= 100);'
   ' (PAIR-level) only the start-tag handler moves the insertion point down a level (one known finding: the timestamp handler does too, so an end tag after a timestamp closes the wrong span);'
   ' (LINT-k) no instance field declared with a numeric type is tested by truthiness (the number 0 would count as `not set`);'
+  ' (LINT-l) no tuple / list / set display of the anchored modules lists the same computed component twice and no dict display repeats a key (a key or fingerprint built that way cannot tell apart what the missing component would have);'
+  ' (STATE-share) no assignment stores a container field of one object (a field the package updates in place) into a field of another object without copying it, so an in-place update of one object never changes another;'
+  " (ITEM-source) an object built once per item of an inner loop is filled only with values that derive from that item or do not vary with the loops, never with a value of the enclosing container standing where the item's own belongs;"
 )
 RULE_TEXT = "per call site / function / enum / printed sample"
 UNDECIDED = ["cue-setting geometry (line numbers <= 0, position with size)", "tag scoping", "region sharing for equal settings"]
